@@ -17,10 +17,13 @@
         the loop (idle, mid-request, between Append's cache update and its
         store write, between Append and Remove, ...);
       - a learner call (verifier call / Head() call) runs to completion before
-        the next event: see C07_reaches_target_refuted for what the model shows
-        without this (finer interleavings are C03's subject). *)
+        the next event.  For ARBITRARY interleavings of learner calls with the
+        loop (and arbitrary inputs) see the last three theorems of this file:
+        the loop never panics, rangeAmount never exceeds the slice, and at
+        quiescence without error nothing is pending (no head is left behind or
+        below the store head); C03's theorems cover contiguity and provenance. *)
 From Coq Require Import List.
-From GH Require Import Base.Prelude Model.Verify Model.Ranges Model.Syncer Proofs.RangesP Proofs.SyncerP.
+From GH Require Import Base.Prelude Model.Verify Model.Ranges Model.Syncer Proofs.RangesP Proofs.SyncerP Proofs.SyncerInvP.
 
 Section c07.
 Variables (drift : Z) (tv : hdr -> hdr -> tvres) (ch : N -> hdr).
@@ -35,7 +38,12 @@ Hypothesis Hch : forall n, h_height (ch n) = n.
     (C07_next_head_resumes) - ends with: nothing pending, Store head = cache =
     the newest verified head, State without error and finished, SyncWait
     returning, the store being the true chain tail..head.
-    Partial only in the granularity of learner calls (atomic). *)
+    Partial only in this: the histories have atomic learner calls.  (Until /repo
+    4d8c5ce + 77026ec the statement was false for interleaved learner calls: a
+    verifier call preempted between setLocalHead's already-synced check and
+    pending.Add could make the loop slice out of range or leave a head below
+    the store head for good; both are now excluded for every schedule by
+    C07_no_panic_any_schedule and C07_quiescent_nothing_pending.) *)
 Theorem C07_reaches_target_partial : forall (tail : N) (k : nat) (es : list hev) (g : N -> N -> ganswer),
   tail + N.of_nat k + 1 < two64 ->
   let c0 := init_cfg tail (crun ch tail (S k)) in
@@ -115,18 +123,36 @@ Proof. exact (no_slice_panic drift tv ch Hch). Qed.
 
 End c07.
 
-(** Without atomic learner calls the statement is false of the model: a gossip
-    verifier call preempted between setLocalHead's "already synced?" check and
-    pending.Add, a Head() call adopting the next head and a complete sync in
-    between make pending hold a header one below the sync target's height;
-    rangeAmount then yields len+1 and the sync loop's Get slices out of range.
-    All heads are valid, the getter is honest.  (Model-level schedule: the
-    window lies between Remove and First inside processHeaders, where the code
-    offers no injectable yield point, so it is not replayed on the real code.) *)
-Theorem C07_reaches_target_refuted :
-  exists (c0 : cfg) (sched : list event),
-    c_loop (run 10%Z (fun _ _ => TVOk) c0 sched) = LPanic.
-Proof. exact interleaved_learner_panics_ex. Qed.
+(** ** every schedule, arbitrary inputs (the machine of C03) *)
+
+(** headerRange.rangeAmount never exceeds the number of headers, for ALL start,
+    length and end (uint64 wrap-around included): Get/Remove/RemoveUpTo cannot
+    slice out of range *)
+Theorem C07_range_amount_never_exceeds : forall start len e : N, range_amount start len e <= len.
+Proof. exact range_amount_le. Qed.
+
+(** no step of any goroutine, from any configuration, under any inputs, makes
+    the sync loop panic *)
+Theorem C07_no_panic_any_schedule : forall drift tv (es : list event) (c : cfg),
+  c_loop c <> LPanic -> c_loop (run drift tv c es) <> LPanic.
+Proof. exact no_panic_run. Qed.
+
+(** For every schedule - learner calls interleaved with the loop at every
+    single access, in particular setLocalHead's check-then-act (shim head
+    compared, pending.Add later) - and arbitrary well-formed inputs: whenever
+    the Syncer is quiescent (loop idle, no trigger token, every learner call
+    returned) and the last attempt did not fail, NOTHING is pending: no head is
+    left behind and none sits at or below the store head; the subjective head
+    (localHead, what Syncer.Head() reports) is the shim's store head, which lies
+    on the stored chain. *)
+Theorem C07_quiescent_nothing_pending : forall drift tv (tail : N) (a : hdr) (l : list hdr) (es : list event),
+  consec (a :: l) -> Forall hok (a :: l) -> h_height a = tail ->
+  Forall (wf_event tail) es ->
+  let c := run drift tv (init_cfg tail (a :: l)) es in
+  all_quiet c -> ss_err (c_state c) = None ->
+  ranges_all (c_pend c) = [] /\ local_head c = c_cache c /\
+  tail <= h_height (c_cache c) <= rs_head (c_store c).
+Proof. exact quiet_run. Qed.
 
 (** non-vacuity: a concrete honest history (skipping head, partial answers, a
     head learned during the sync leaving a gap, an error) and its outcome *)
@@ -151,4 +177,6 @@ Print Assumptions C07_nothing_lost.
 Print Assumptions C07_next_head_resumes.
 Print Assumptions C07_no_lost_trigger.
 Print Assumptions C07_no_slice_panic.
-Print Assumptions C07_reaches_target_refuted.
+Print Assumptions C07_range_amount_never_exceeds.
+Print Assumptions C07_no_panic_any_schedule.
+Print Assumptions C07_quiescent_nothing_pending.
